@@ -30,6 +30,14 @@ inductive LoopOut (ρ σ : Type) where
   | brk (s : σ)
   deriving Repr, DecidableEq
 
+/-- Like `LoopOut`, for a loop whose body contains `goto L` to a label outside the loop: `jmp`
+hands the loop-carried variables back and the call site re-enters the label's region. -/
+inductive LoopOutJ (ρ σ : Type) where
+  | ret (r : ρ)
+  | brk (s : σ)
+  | jmp (s : σ)
+  deriving Repr, DecidableEq
+
 abbrev Err := Option String
 
 /-- Two's-complement wrap to 64 bits: the value of a Go `int64` expression whose mathematical
